@@ -218,8 +218,7 @@ func runFSO(cfg config) {
 			if strings.HasPrefix(op, "UM ") && mode == "admin" && j%3 != 0 {
 				continue
 			}
-			if op == "RA 0 "+tok("/") {
-				// os.RemoveAll("/") empties the whole tree before failing with EBUSY: outside the universe
+			if !inUniverse(op) {
 				continue
 			}
 			res := guarded(func() string { return applySingle(w, strings.Fields(op), false, &dummy) })
@@ -279,4 +278,47 @@ func kernelKnobs() map[string]string {
 		}
 	}
 	return m
+}
+
+// inUniverse: the path operands the oracle streams quantify over (DESIGN 5 C01): non-empty, lexically clean,
+// last element neither "." nor ".."; the root directory is an operand of read-only calls only.  The excluded
+// shapes are covered by the fixed witness corpus of the known findings (empty path taken as the current
+// directory, errno of operations on the root directory).
+func inUniverse(op string) bool {
+	t := strings.Fields(op)
+	var paths []string
+	mutating := true
+	switch t[0] {
+	case "ST", "LS", "RD", "RF", "RL", "CD", "ES", "WD":
+		mutating = false
+	}
+	switch t[0] {
+	case "RN", "LN":
+		paths = []string{untok(t[2]), untok(t[3])}
+	case "SL":
+		if untok(t[2]) == "" {
+			return false
+		}
+		paths = []string{untok(t[3])}
+	case "WD", "SU", "UM":
+		return true
+	default:
+		paths = []string{untok(t[2])}
+	}
+	for _, p := range paths {
+		if p == "" {
+			return false
+		}
+		b := filepath.Base(p)
+		if b == "." || b == ".." {
+			return false
+		}
+		if p == "/" && mutating {
+			return false
+		}
+	}
+	if t[0] == "OP" && untok(t[2]) == "/" && atoi(t[3]) != 0 {
+		return false
+	}
+	return true
 }
